@@ -38,22 +38,25 @@ def specRead (a : Abs) (k : Nat) : St × Bytes × Abs :=
   if a.suffix.length < k then (.eof, [], a)
   else (.ok, a.suffix.take k, { a with cur := a.cur + k })
 
+/-- length of a newline at the head of `s`: 1 for LF, 2 for CRLF, 0 if `s` does not start with a newline -/
+def nlLen (s : Bytes) : Nat :=
+  if s[0]? = some LF then 1 else if s[0]? = some CR ∧ s[1]? = some LF then 2 else 0
+
+/-- length of the token at the head of `s` (which starts with a byte that is neither separator nor newline):
+    that byte plus the maximal run of bytes that are neither separators nor LF, minus a final CR if an LF follows -/
+def tokLen (sep : Bytes) (s : Bytes) : Nat :=
+  let e0 := 1 + runLen (isTok sep) (s.drop 1)
+  if s[e0]? = some LF ∧ s[e0 - 1]? = some CR then e0 - 1 else e0
+
 /-- Next token of `s` for separator set `sep`: `(status, token, bytes consumed)`.
-    Skip separators; end of input ⇒ `eof`; on LF or CRLF ⇒ `eol` (terminator consumed); otherwise the token is
-    the first byte plus the maximal run of bytes that are neither separators nor LF, minus a final CR when an
-    LF follows; trailing separators are consumed too. -/
+    Skip separators; end of input ⇒ `eof`; on LF or CRLF ⇒ `eol` (terminator consumed); otherwise the token
+    (see `tokLen`), and the separators that follow it are consumed too. -/
 def specTok (sep : Bytes) (s : Bytes) : St × Bytes × Nat :=
   let k := runLen (isSep sep) s
   let s1 := s.drop k
-  match s1 with
-  | [] => (.eof, [], k)
-  | c :: t =>
-    if c = LF then (.eol, [], k + 1)
-    else if c = CR ∧ t.head? = some LF then (.eol, [], k + 2)
-    else
-      let e0 := 1 + runLen (isTok sep) t
-      let e := if s1[e0]? = some LF ∧ s1[e0 - 1]? = some CR then e0 - 1 else e0
-      (.ok, s1.take e, k + e + runLen (isSep sep) (s1.drop e))
+  if s1 = [] then (.eof, [], k)
+  else if nlLen s1 ≠ 0 then (.eol, [], k + nlLen s1)
+  else (.ok, s1.take (tokLen sep s1), k + tokLen sep s1 + runLen (isSep sep) (s1.drop (tokLen sep s1)))
 
 def specToken (a : Abs) (sep : Bytes) : St × Bytes × Abs :=
   match specTok sep a.suffix with
